@@ -4,20 +4,10 @@ From Coq Require Import Strings.Byte.
 From UF Require Import Base.Lit Base.Bytes Base.Codec Model.Rule Model.Storage Run.Common.
 Import ListNotations.
 
-Definition parse_list (s : bytes) : option flist :=
-  match split_byte ":"%byte s with
-  | [id; ig; c] =>
-    match Z_of_dec id, hex_decode c with
-    | Some id, Some c => Some {| rl_id := id; rl_content := c; rl_ignore_cosmetic := dec_bool ig |}
-    | _, _ => None
-    end
-  | _ => None
-  end.
-
 Definition kind_of (r : rule) : bytes := match r with RNet _ => $"N" | RHost _ => $"H" | RCos _ => $"C" end.
 
 Definition run_case (line : bytes) : bytes :=
-  match opt_all (map parse_list (split_byte ";"%byte line)) with
+  match parse_storage line with
   | None => $"BADCASE"
   | Some st =>
     match storage_scan st with
